@@ -257,8 +257,11 @@ def fixedpoint_vs_fixedinterval(ctx, cfg, d, field, u0s, t0, t1, tol):
     cps = []
     for a, b in zip(ts[:-1], ts[1:]):
         if b < t1 and ctx.rng.random() < 0.6:
-            cps.append(float(a + (b - a) * ctx.rng.uniform(0.2, 0.8)))
-    cps = [c_ for c_ in cps if t0 < c_ < t1][:4]
+            # one, two or three checkpoints strictly inside the same step
+            k = int(ctx.rng.integers(1, 4))
+            cps += sorted(float(a + (b - a) * x) for x in ctx.rng.uniform(0.1, 0.9, size=k))
+    cps = [c_ for c_ in cps if t0 < c_ < t1][:6]
+    ctx.count(f"fp-vs-fi checkpoints={len(cps)}")
     if not cps:
         return
     save_at = jnp.asarray([t0, *cps, t1])
